@@ -1,4 +1,5 @@
 import SasLexer.Spec.Basic
+import SasLexer.Spec.ChanTable
 import SasLexer.Chars
 /-!
 # C06 — a token's text has the lexical shape its type and channel promise (specification)
@@ -13,7 +14,7 @@ without a table row), `virtual`, `ws`, `catch-all`, `semi`, `amp`, `symbol`, `ke
 `numeric-shape`, `quoted-literal`, `string-expr`, `cstyle-comment`, `predicted-comment`,
 `macro-comment`, `datalines`, `char-format`, `macro-var-resolve`, `macro-var-term`,
 `macro-string`, `macro-label`, `macro-identifier`, `kwm`, `identifier`,
-`channel-partition`, `empty-token`.
+`channel-partition`, `channel-table` (the context-free table of `Spec/ChanTable.lean`; proved for the model, all inputs: `C06_model_channels`), `empty-token`.
 
 Notation of the table: `ws` = `isWhitespace`; `name` = (`_` | XID_Start) XID_Continue*;
 `ci` = equality after ASCII upper-casing.  "Error `K` at `b`" = some error of kind `K` whose
@@ -541,6 +542,7 @@ def C06 (s : List Char) (d : Dump) : Verdict :=
     let cts := contexts (utf8Len s) d.errs [] toks
     dedup (cts.filterMap fun (c, t) => rowViolation c t)
     ++ clause "channel-partition" (cts.all fun (c, t) => channelOk c t)
+    ++ clause "channel-table" (d.toks.all fun t => chanOK t.chan t.ty)
     ++ clause "empty-token" (cts.all fun (c, t) => emptyOk c t)
 
 end Spec
